@@ -45,10 +45,25 @@ func VerifHarness_CoinRegistry_Deliver() {
 		typePrice := []*big.Int{p.CreateCoin, p.CreateToken, p.RecreateCoin, p.RecreateToken, p.EditTickerOwner}[kind]
 		gp := big.NewInt(int64(tx.GasPrice))
 		fee := new(big.Int).Sub(after.get("rewardpool"), before.get("rewardpool"))
-		verifAssert("C27:fee=gasprice*typeprice", fee.Cmp(new(big.Int).Mul(gp, typePrice)) == 0)
+		burned := new(big.Int).Sub(after.get("bal.zero.0"), before.get("bal.zero.0"))
+		wantFee := new(big.Int).Mul(gp, typePrice)
+		wantBurn := big.NewInt(0)
 		if kind <= 1 {
-			burned := new(big.Int).Sub(after.get("bal.zero.0"), before.get("bal.zero.0"))
-			verifAssert("C27:ticker-fee-burned-to-the-zero-address", burned.Cmp(new(big.Int).Mul(gp, p.CreateTicker3)) == 0)
+			wantBurn = new(big.Int).Mul(gp, p.CreateTicker3)
+		}
+		if pc := types.CoinID(verifConfig("priceCoin")); !pc.IsBaseCoin() {
+			// price table in a custom coin: gas price x price is converted through
+			// the (price coin, base) pool, which this transaction does not touch
+			sw := u.st.Swapper().GetSwapper(pc, 0)
+			total, _ := sw.CalculateBuyForSellWithOrders(new(big.Int).Add(wantFee, wantBurn))
+			if kind <= 1 {
+				wantBurn, _ = sw.CalculateBuyForSellWithOrders(wantBurn)
+			}
+			wantFee = new(big.Int).Sub(total, wantBurn)
+		}
+		verifAssert("C27:fee=gasprice*typeprice", fee.Cmp(wantFee) == 0)
+		if kind <= 1 {
+			verifAssert("C27:ticker-fee-burned-to-the-zero-address", burned.Cmp(wantBurn) == 0)
 		}
 	}
 	count1 := u.st.App.GetCoinsCount()
